@@ -278,6 +278,9 @@ func (tm *termer) render(v ssa.Value) *Term {
 	case *ssa.Lookup:
 		return &Term{Op: "lookup", Args: tm.args(v.X, v.Index)}
 	case *ssa.Slice:
+		if el := variadicElemValues(v); el != nil {
+			return &Term{Op: "slicelit", Args: tm.args(el...)}
+		}
 		return &Term{Op: "slice", Args: tm.args(v.X, v.Low, v.High)}
 	case *ssa.UnOp:
 		switch v.Op {
@@ -439,4 +442,59 @@ func RecvField(v ssa.Value) string {
 		}
 	}
 	return ""
+}
+
+// variadicElemValues recovers the elements of a variadic-argument slice
+// (new [n]T; &t[i] = v; slice t[:]) in index order; nil when v is not of that shape.
+func variadicElemValues(v ssa.Value) []ssa.Value {
+	sl, ok := v.(*ssa.Slice)
+	if !ok {
+		return nil
+	}
+	al, ok := sl.X.(*ssa.Alloc)
+	if !ok {
+		return nil
+	}
+	arr, ok := al.Type().Underlying().(*types.Pointer).Elem().Underlying().(*types.Array)
+	if !ok {
+		return nil
+	}
+	out := make([]ssa.Value, arr.Len())
+	for _, r := range *al.Referrers() {
+		ia, ok := r.(*ssa.IndexAddr)
+		if !ok {
+			continue
+		}
+		c, ok := ia.Index.(*ssa.Const)
+		if !ok {
+			return nil
+		}
+		idx := int(c.Int64())
+		for _, rr := range *ia.Referrers() {
+			if st, ok := rr.(*ssa.Store); ok && st.Addr == ia {
+				if idx < len(out) {
+					out[idx] = st.Val
+				}
+			}
+		}
+	}
+	for _, o := range out {
+		if o == nil {
+			return nil
+		}
+	}
+	return out
+}
+
+func variadicElems(v ssa.Value) []*Term {
+	vals := variadicElemValues(v)
+	if vals == nil {
+		return nil
+	}
+	tm := NewTermer()
+	var out []*Term
+	for _, x := range vals {
+		out = append(out, tm.Of(x))
+	}
+	return out
 }
